@@ -17,7 +17,11 @@ theorem fb_rolling_eq_windowed_any_order (n : Nat) (dur : Int) (pn : Nat) (pdur 
     (hw : 0 < tdiv dur n) (emits : List Emit) (now : Int) (h0 : 0 ≤ now) (hle : ∀ e ∈ emits, emitTime e ≤ now) :
     let a := (All.new n dur pn pdur psize mh).feed emits
     (a.fb.sums now).2 = fbKinds.map (fun k => fbRolling n (tdiv dur n) (histOf emits) k now) := by
-  sorry
+  intro a
+  rw [cstr_fb_sums_snd]
+  apply List.map_congr_left
+  intro k _
+  exact cstr_rolling_getF k n dur pn pdur psize mh hn hw emits now h0 (fun k t d h => hle _ h)
 
 /-- THE STREAM RECORD IS COMPUTED FROM WHAT HAPPENED: for every window configuration and every history of delivered
     callbacks (any timestamp order, read not before anything delivered), the record `collectCommandMetrics` builds —
@@ -28,7 +32,10 @@ theorem stream_record_correct (n : Nat) (dur : Int) (pn : Nat) (pdur : Int) (psi
     (hw : 0 < tdiv dur n) (emits : List Emit) (now : Int) (isOpen : Bool) (h0 : 0 ≤ now) (hle : ∀ e ∈ emits, emitTime e ≤ now) :
     ((All.new n dur pn pdur psize mh).feed emits).streamCounts now isOpen
       = streamSpec n (tdiv dur n) (histOf emits) now isOpen := by
-  sorry
+  have h1 := rolling_eq_windowed_any_order n dur pn pdur psize mh hn hw emits now h0 hle
+  have h2 := totals_eq_counts n dur pn pdur psize mh emits
+  have h3 := fb_rolling_eq_windowed_any_order n dur pn pdur psize mh hn hw emits now h0 hle
+  exact cstr_streamCounts_of _ now isOpen _ _ _ _ h1 h2.1 h3 h2.2
 
 /-- so, in particular, the record's request and error counts are the sums the property names -/
 theorem stream_request_and_error_counts (n : Nat) (dur : Int) (pn : Nat) (pdur : Int) (psize : Nat) (mh : Int) (hn : 0 < n)
@@ -39,7 +46,11 @@ theorem stream_request_and_error_counts (n : Nat) (dur : Int) (pn : Nat) (pdur :
     r.requestCount = rolling n w h .success now + rolling n w h .failure now + rolling n w h .timeout now + rolling n w h .interrupt now ∧
     r.errorCount = rolling n w h .failure now + rolling n w h .timeout now ∧
     r.cntBad = total h .badRequest + total h .interrupt ∧ r.isOpen = isOpen := by
-  sorry
+  intro r h w
+  have hr : r = streamSpec n (tdiv dur n) (histOf emits) now isOpen :=
+    stream_record_correct n dur pn pdur psize mh hn hw emits now isOpen h0 hle
+  rw [hr]
+  exact ⟨rfl, rfl, rfl, rfl⟩
 
 /-- non-vacuity: two successes, a failure, an interrupt that has rolled out of the window, one rejected fallback -/
 example :
